@@ -22,6 +22,9 @@ def check(ctx):
         steps.append(ctx.repo.func(q))
     n11 = coupling.r11_function_steps(ctx, steps)
     run.floor('R11', n11, 6, 'field-changing steps')
+    # rows are rebuilt key by key (simultaneous mapping), values untouched
+    from checks import C15
+    C15.select_delete_rename(ctx)
     # 3. value types that are a table
     abstypes.r18_join_aggregators(ctx)
     abstypes.r18_computed_field(ctx)
